@@ -1056,6 +1056,16 @@ def run(scn, ch, log=False):
             if bad_mask:
                 violate("wire_frames", f"{name}:masking", f"{name} sent {bad_mask[0]!r} masked={bad_mask[0].masked}")
             t_our_close = time_of(wrecs, len(head) + closes[0].end) if closes and head is not None else None
+            # when the last byte of our close frame reached the other end: close() sends the frame first (and, with the
+            # transport write-paused by earlier output, waits for it to drain - the latitude hold runs already have)
+            # and waits for the reply under its timeout afterwards; the send is over by then at the latest
+            precs, _ps = wire_of(tr.peer.name, "r") if tr.peer is not None else ([], b"")
+            t_our_close_arrived = time_of(precs, len(head) + closes[0].end) if closes and head is not None else None
+
+            def send_allowance(c):
+                if t_our_close is None or t_our_close_arrived is None or not (c.t0 - EPS <= t_our_close <= (c.t1 if c.t1 is not None else now)):
+                    return 0.0  # the frame was not written by this call
+                return max(0.0, t_our_close_arrived - c.t0)
             # ---- what was delivered to this session
             rrecs, rstream = wire_of(tr.name, "r")
             rhead, rrest = W.split_head(rstream)
@@ -1135,7 +1145,7 @@ def run(scn, ch, log=False):
                                 violate("close_returns", f"{name}:close_pending",
                                         f"{_fmt_call(c)} is still pending at quiescence (t={now:.4f}); close timeout {sd.close_timeout}s; "
                                         f"ws.closed={closed} close_code={ws.close_code}; calls: {[_fmt_call(x) for x in sd.calls]}")
-                    elif not hold_run and c.t1 - c.t0 > sd.close_timeout + EPS:
+                    elif not hold_run and c.t1 - c.t0 > sd.close_timeout + EPS + send_allowance(c):
                         during = [t for t in rx_times if c.t0 < t < c.t1]
                         nrx = len(during)
                         restarted = nrx >= 1 and c.t1 - during[-1] <= sd.close_timeout + EPS
